@@ -2,7 +2,7 @@
 from common import *
 
 RULE = ("sequences of 0-40 strings (empty, repeated, high bytes, long) added to a fresh STRTAB section in all 4 "
-        "configurations, every returned index re-read after every later addition, plus lookups at size-1, size, size+1, "
+        "configurations, every returned index re-read after every later addition (a third of the sequences also add strings by a pointer into the table itself: add_string( get_string( i ) ), whole strings and suffixes), plus lookups at size-1, size, size+1, "
         "2^32-1 and random indices; raw tables with an unterminated tail are installed with set_data and probed the same way. "
         "Non-trivial = at least 3 additions or a raw table with an unterminated tail.")
 ASSUMPTIONS = ["table size below 2^32", "strings are NUL-free (C strings)"]
@@ -22,13 +22,26 @@ def rstr(rng):
 
 def meta_from_lines(lines):
     ops = []
+    table = b""        # the table as the specification has it, to know which string a self-referring addition names
     for l in lines:
         t = l.split()
         if t[0] == "stradd":
-            ops.append(("add", bytes.fromhex(t[2]) if t[2] != "-" else b""))
+            sv = bytes.fromhex(t[2]) if t[2] != "-" else b""
+            ops.append(("add", sv))
+            table = (table or b"\0") + sv + b"\0"
+        elif t[0] == "straddself":
+            # add_string( get_string( idx ) ): the argument points into the table itself
+            ix = int(t[2], 0)
+            if ix < len(table) and 0 in table[ix:]:
+                sv = table[ix:table.index(0, ix)]
+                ops.append(("add", sv, "self"))
+                table = table + sv + b"\0"
+            else:
+                ops.append(("absent",))
         elif t[0] == "strget":
             ops.append(("get", int(t[2], 0)))
         elif t[0] == "dset":
+            table = bytes.fromhex(t[2]) if t[2] != "-" else b""
             ops.append(("raw", bytes.fromhex(t[2]) if t[2] != "-" else b""))
         elif t[0] == "getdata":
             ops.append(("data",))
@@ -38,7 +51,9 @@ def meta_from_lines(lines):
 def mk_case(cid, cfg, ops):
     lines = ["ctor plain", "create %s %s" % cfg, "addsec " + hx(b".strtab"), "secset 2 type 3"]
     for o in ops:
-        if o[0] == "add":
+        if o[0] == "addself":
+            lines.append("straddself 2 %d" % o[1])
+        elif o[0] == "add":
             lines.append("stradd 2 " + hx(o[1]))
         elif o[0] == "get":
             lines.append("strget 2 %d" % o[1])
@@ -55,7 +70,7 @@ def oracle(case, impl):
     fails = []
     table = b""            # what the table must contain, per the property
     added = {}             # returned index -> string
-    it = iter([l for l in impl if l.split()[:2] in (['n', '3'], ['b', '4'], ['b', '1'])])
+    it = iter([l for l in impl if l.split()[:2] in (['n', '3'], ['b', '4'], ['b', '1'], ['n', '111'])])
     for o in case.meta["ops"]:
         if o[0] == "raw":
             table = o[1]
@@ -65,7 +80,12 @@ def oracle(case, impl):
             l = next(it)
         except StopIteration:
             return ["count: fewer observations than operations"]
+        if o[0] == "absent":
+            continue
         if o[0] == "add":
+            if l.split()[1] == "111":
+                fails.append("self: get_string returned null for an index that holds a terminated string")
+                continue
             _, vals = parse_n(l)
             idx = vals[1]
             added[idx] = o[1]
@@ -131,9 +151,21 @@ def generate(rng, tier):
             pool = [rstr(rng) for _ in range(max(1, k // 2))]
             size = 0
             sent = []
+            alias = i % 3 == 0
+            tab = b""
             for j in range(k):
                 s = rng.choice(pool) if rng.random() < 0.3 else rstr(rng)
-                ops.append(("add", s))
+                if alias and sent and rng.random() < 0.45:
+                    # the string handed to add_string() is one that is already in the table (a pointer into it):
+                    # a whole earlier string or a suffix of one
+                    ix = rng.choice(sent)
+                    e0 = tab.index(0, ix)
+                    ix = rng.randint(ix, e0) if rng.random() < 0.3 else ix
+                    s = tab[ix:e0]
+                    ops.append(("addself", ix))
+                else:
+                    ops.append(("add", s))
+                tab = (tab or b"\0") + s + b"\0"
                 size = (size or 1) + len(s) + 1
                 sent.append(size - len(s) - 1)
                 # re-read some earlier indices
@@ -156,6 +188,7 @@ def distribution(cases):
         for o in c.meta["ops"]:
             if o[0] == "add":
                 d["adds"] += 1
+                d["adds_of_a_string_inside_the_table"] = d.get("adds_of_a_string_inside_the_table", 0) + (len(o) > 2)
                 d["empty_strings"] += (len(o[1]) == 0)
                 d["max_len"] = max(d["max_len"], len(o[1]))
             elif o[0] == "get":
